@@ -23,10 +23,10 @@ ASSUMPTIONS = [
     "with trailing bytes after an RTU frame the served payload must be the prefix of response_data() (the library's "
     "trim keeps the trailing bytes; sensors address the payload by offset)",
 ]
-MUST = ["aa55_sum_ge_8000", "aa55_sum_ge_10000", "rtu_trailing", "end_to_end_success", "negative_write_echo",
+MUST = ["aa55_sum_ge_8000", "aa55_sum_ge_10000", "rtu_trailing", "end_to_end_success", "negative_write_echo", "overlapping_tcp_inverters",
         "accepted_rtu", "accepted_tcp", "accepted_aa55"]
 EXHAUSTIVE = {"quick": False, "thorough": False}
-CLASSES = ["random", "ff", "00", "7f80", "fe"]
+CLASSES = ["random", "ff", "00", "7f80", "fe", "aa55"]
 
 
 def check_one(g, part, d, frame, cls, trailing="none"):
@@ -179,6 +179,50 @@ def end_to_end(spec, part):
                              f"{step[:2]}: response_data() {got.hex()[:60]} != served payload {want.hex()[:60]}", case)
 
 
+def overlap(spec, part):
+    """Two Modbus/TCP inverter objects whose requests overlap in time: each conforming answer (echoing the transaction id of
+    ITS request) must be accepted."""
+    from .. import sims
+    g = env.goodwe()
+    rnd = random.Random(spec["seed"])
+    import asyncio
+    for i in range(spec["n"]):
+        sa, sb = sims.ModbusSim("invA"), sims.ModbusSim("invB")
+        sa.delay, sb.delay = rnd.choice((0.1, 0.3, 0.5)), rnd.choice((0.05, 0.2, 0.4))
+        for a in range(100, 140):
+            sa.regs[a], sb.regs[a] = rnd.randrange(65536), rnd.randrange(65536)
+        out = {}
+
+        async def flow(loop):
+            A, B = g.ET("invA", 502, 0, 1, 0), g.ET("invB", 502, 0, 1, 0)
+            ka = rnd.random() < 0.5
+            A.set_keep_alive(ka)
+            B.set_keep_alive(ka)
+
+            async def seq(inv, name, off):
+                await asyncio.sleep(off)
+                res = []
+                for k in range(3):
+                    try:
+                        r = await inv._read_from_socket(inv._read_command(100 + k, 4))
+                        res.append(r.response_data().hex())
+                    except Exception as e:      # noqa
+                        res.append("EXC:" + type(e).__name__)
+                out[name] = res
+            await asyncio.gather(seq(A, "A", 0.0), seq(B, "B", rnd.choice((0.0, 0.02, 0.15))))
+
+        run = engine.run_custom({("invA", 502): sa, ("invB", 502): sb}, flow)
+        part.evaluations += 1
+        part.count("overlapping_tcp_inverters")
+        part.see(f"overlap|{sa.delay}|{sb.delay}")
+        for name, sim in (("A", sa), ("B", sb)):
+            want = [sim.get_bytes(100 + k, 4).hex() for k in range(3)]
+            if run.stop or out.get(name) != want:
+                part.violate("C02/tcp/conforming-answer-not-delivered",
+                             f"two overlapping Modbus/TCP inverters: object {name} got {out.get(name)} instead of the served payloads "
+                             f"({run.stop or ''})", {"overlap": True, "seed": spec["seed"], "i": i})
+
+
 def plan(tier, seed):
     specs = []
     stride = 8 if tier == "quick" else 1
@@ -188,6 +232,7 @@ def plan(tier, seed):
                       "nvals": 200 if tier == "quick" else 8192})
     for i in range(4 if tier == "quick" else 16):
         specs.append({"mode": "e2e", "seed": f"{seed}:C02:E:{i}", "n": 600 if tier == "quick" else 4000})
+    specs.append({"mode": "overlap", "seed": f"{seed}:C02:O", "n": 60 if tier == "quick" else 600})
     return specs
 
 
@@ -196,6 +241,8 @@ def run_shard(spec):
     contracts.install_validator_contracts(contracts.Sink(part))
     if spec["mode"] == "direct":
         direct(spec, part)
+    elif spec["mode"] == "overlap":
+        overlap(spec, part)
     else:
         end_to_end(spec, part)
     # C01 contract findings that surface here are C01's business; keep only C02 keys
@@ -207,6 +254,9 @@ def run_shard(spec):
 def replay(case):
     g = env.goodwe()
     part = Part()
+    if case.get("overlap"):
+        overlap({"seed": case["seed"], "n": case["i"] + 1}, part)
+        return [{"key": v["key"], "msg": v["msg"]} for v in part.violations]
     if case.get("e2e"):
         run = engine.run_scenario(case["scenario"], peer_factory=ServePeer, quiesce=False)
         rec = run.calls[0]
